@@ -673,6 +673,12 @@ def run(tier, pid="C07"):
             r = tlc.run_tlc("match", "TextRepr", cfg, workers=8, coverage=False, timeout=3000)
             tlc.require_ok(r, "C07 " + cfg)
             rep.add_tlc(r, cfg + " (RoundTrip/ModeInvariant only, no export)")
+        # (E) expectThat inside the full run lifecycle: a mismatch followed by a skip / expected failure /
+        #     failure in a later stage or cleanup still fails the test, and its details arrive - decided by
+        #     spec/lifecycle/RunTestTrace.tla on TLC-exported programs containing an `expect` step
+        from . import lifecycle
+
+        rep.extra["expectThat_lifecycle_programs"] = lifecycle.expect_that_check(rep, tier)
     finally:
         pool.close()
     rep.exhaustive = False
